@@ -8,6 +8,9 @@ scale, array elements in another order.  So, for every leaf element of every C++
           on every call path; the Python value found at the element's Python path is reported exactly (as a fraction);
   pack:   the Python value the C++ value means (raw x scale) is set at that Python path of the zero object, the object is
           packed, and the number found at the element's C++ offset is reported; all other bytes must stay as they were;
+  in place: an object with every leaf set is packed into caller-supplied buffers pre-filled with 0xA5 at offsets 1, 3, 8, 24
+          (for MessageHeader also with payload=): the bytes at [offset, offset+len) must be exactly what pack() into a fresh
+          buffer gives and no byte outside may change (one row per struct, variant and offset: the message bytes as one number);
   arrays: an array attribute is set to pairwise distinct elements in several memory layouts (C order, Fortran order,
           transposed view, block of a larger Fortran-ordered matrix, strided view, nested lists) and every element is read
           back from its C++ offset.
@@ -223,6 +226,58 @@ def run_struct(spec):
                     row['note'] = 'pack also changed bytes %r' % other[:8]
             except Exception as e:
                 row['note'] = repr(e)[:160]
+            rows.append(row)
+    # ---- in place, into the caller's buffer at non-zero offsets
+    full = blank(n + TAIL)
+    for leaf in spec['leaves']:
+        full[leaf['offset']:leaf['offset'] + leaf['size']] = encode(leaf['kind'], leaf['size'], leaf['values'][0])
+    full_obj = None
+    for cand in (full, None):
+        try:
+            if cand is not None:
+                full_obj, _ = ad.unpack(cand)
+                ad.pack(full_obj)
+            break
+        except Exception:
+            full_obj = None
+    if full_obj is None:
+        full_obj = base_obj
+    variants = [('', {})] + [('with payload=', {'payload': bytes.fromhex(v['payload_hex'])}) for v in spec.get('pack_variants', [])]
+    for vname, kw in variants:
+        for off in (1, 3, 8, 24):
+            row = {'struct': spec['cpp'], 'leaf': '(whole struct)', 'how': 'pack %sinto the caller\'s buffer at offset %d' % (vname + ' ' if vname else '', off),
+                   'raw': None, 'scale': [1, 1], 'obs': None}
+            try:
+                if full_obj is None:
+                    raise RuntimeError('no object to pack')
+                if ad.kind == 'construct':
+                    row['how'] = 'skipped'
+                    row['skip'] = 'a construct codec has no pack-into-buffer interface'
+                    row['raw'] = [1, 1]
+                    rows.append(row)
+                    break
+                ref = ad.pack_kw(copy.deepcopy(full_obj), **kw)
+                row['raw'] = [int.from_bytes(ref, 'little'), 1]
+                caller = bytearray([0xA5] * (off + len(ref) + 16))
+                before = bytes(caller)
+                ad.pack_into(copy.deepcopy(full_obj), caller, off, **kw)
+                outside = [i for i in range(len(caller)) if not off <= i < off + len(ref) and caller[i] != before[i]]
+                if len(caller) != len(before):
+                    row['note'] = 'the caller\'s buffer changed its length'
+                elif outside:
+                    row['note'] = 'bytes outside [offset, offset+size) were written: %r' % outside[:8]
+                else:
+                    row['obs'] = [int.from_bytes(bytes(caller[off:off + len(ref)]), 'little'), 1]
+                    diff = [i for i in range(len(ref)) if caller[off + i] != ref[i]]
+                    if diff:
+                        row['note'] = 'message bytes (relative) %r differ from pack() into a fresh buffer' % diff[:12]
+                if row['raw'][0] == 0:
+                    row['how'] = 'skipped'
+                    row['skip'] = 'only an all-zero object could be packed'
+            except Exception as e:
+                row['note'] = repr(e)[:160]
+                if row['raw'] is None:
+                    row['raw'] = [1, 1]
             rows.append(row)
     # ---- array layouts
     for arr in spec.get('arrays', []):
